@@ -587,6 +587,9 @@ func (r *Runner) resolveExclamationUnaryExpression(v interface{}) (interface{}, 
 	case nil:
 		return true, nil
 	default:
+		if IsNull(v) {
+			return true, nil
+		}
 		return nil, fmt.Errorf("unary expressin '!' not support type %T", v)
 	}
 }
